@@ -93,6 +93,14 @@ def validate_chunks(pid, mode, chunks, outdir, tag, pairs=None, jobs=8, tier="qu
         t2 = pairs[i] if pairs else None
         r = tlc.validate_trace(ch, mode, meta, logp, trace2=t2, tier=tier)
         shutil.rmtree(meta, ignore_errors=True)
+        if r["done"] is None or not r["ok"]:
+            # a JVM that dies without a verdict (seen once: StackOverflowError on a machine short of memory, not
+            # reproducible) is run again, once, with its first log kept; a second failure is a tool error
+            if os.path.exists(logp):
+                os.replace(logp, logp + ".first")
+            r = tlc.validate_trace(ch, mode, meta, logp, trace2=t2, tier=tier)
+            shutil.rmtree(meta, ignore_errors=True)
+            r["retried"] = True
         r["chunk"] = ch
         return r
 
